@@ -1451,6 +1451,26 @@ def U1(ctx, rule="U1"):
     ctx.floor(rule, 6, "end-of-stream obligations")
 
 
+
+def outcome_preserving_helper(ctx, fcl, e):
+    """e = H(item) with H a private call-free function PollOutcome -> PollOutcome that constructs no outcome other than
+    `Interrupted(..)`: an Interrupted item stays Interrupted (what it returns is its parameter or a rebuilt Interrupted)"""
+    fb = ctx.fb
+    if e.kind != "call" or e[1] not in fb.bodies or len(e[2]) != 1 or strip_refs(e[2][0]) != E(("arg", 2)):
+        return False
+    H = fb.bodies[e[1]]
+    sig = fb.fns.get(H.id) or {}
+    if H.kind != "fn" or sig.get("public") or "PollOutcome" not in (sig.get("output") or {}).get("s", "") or \
+            "Option" in (sig.get("output") or {}).get("s", "").split("PollOutcome")[0]:
+        return False
+    if list(H.calls()):
+        return False
+    for bb_, si_, s_ in H.stmts():
+        if s_["k"] == "assign" and s_["rv"]["k"] == "agg" and (s_["rv"].get("def") or "").endswith("PollOutcome") and \
+                s_["rv"].get("variant") != "Interrupted":
+            return False
+    return True
+
 def T4(ctx, rule="T4"):
     """Every item of the interruptible ready stream reaches the scheduler: a
     filter/filter_map between `interruptible_with` and the consuming adaptor
@@ -1488,6 +1508,8 @@ def T4(ctx, rule="T4"):
                     a = strip_refs(expr_operand(fcl, rets[0][3]["args"][0]))
                     if a.kind == "agg" and a[3] == "Some" and strip_refs(a[4][0]) == E(("arg", 2)):
                         ok = True
+                    elif a.kind == "agg" and a[3] == "Some" and outcome_preserving_helper(ctx, fcl, strip_refs(a[4][0])):
+                        ok = True       # `Some(helper(item))`, the helper never turns an Interrupted outcome into another variant
                     else:
                         why = "the closure returns `ready(%s)`: items can be dropped" % fmt_expr(a, fcl)
             ctx.check(ok, rule, "passthrough|%s" % short(b.id), where,
